@@ -39,6 +39,8 @@ RULE = (
     "listener is awaited (deadline = call time + timeout in force, whatever the listeners do); "
     "scheduled replies optionally travel over a peer connection established beforehand (so that the reply is handled "
     "in the loop iteration in which a timer of the same instant runs); "
+    "0..3 generated extra SearchRequestRemovedEvent listeners (plain function, coroutine without a wait, coroutine "
+    "waiting 1..6 loop iterations or one grid step) registered between the recorder and a plain last listener; "
     "change of request_timeout; advance(n*0.5 s); advance to -1/0/+1 grid steps around the deadline of a live "
     "request; step(n loop iterations) so that several operations share one virtual instant. Oracle (reference "
     "model ticket -> request object, creation time, deadline = creation + timeout in force, manual removal time): "
@@ -46,7 +48,8 @@ RULE = (
     "that request object, the ticket and the reply's payload (and the reply is stored in request.results iff "
     "store_results); a new request never gets the ticket of a live request; a request with a deadline gets exactly "
     "one SearchRequestRemovedEvent, at the deadline (|dt| <= 1e-6 s), none if it has no timeout or the deadline lies "
-    "beyond the end; a manually removed request gets no result event, no removal event at its old deadline (at "
+    "beyond the end, and that report reaches every registered listener exactly once and every coroutine listener "
+    "runs to its end; a manually removed request gets no result event, no removal event at its old deadline (at "
     "most one at the instant of the manual removal is tolerated), no exception in the loop's error record, and "
     "SearchManager.requests equals the model's live set at every half-grid checkpoint. Events on the same virtual "
     "instant as a deadline / manual removal are ties: by virtual time both outcomes are accepted, an error never "
@@ -143,6 +146,9 @@ search_strategy = st.fixed_dictionaries({
     'store': st.booleans(),
     'cmds': st.sampled_from([False, False, False, True]),
     'wishlist': st.lists(st.tuples(st.integers(0, 3), st.sampled_from([True, True, False])).map(list), max_size=3),
+    # further SearchRequestRemovedEvent listeners between the recorder (first) and a plain last listener
+    'rm_listeners': st.lists(st.tuples(st.sampled_from(['sync', 'async', 'steps', 'steps', 'tick']),
+                                       st.integers(1, 6)).map(list), max_size=3),
     'ops': _search_ops,
 })
 
@@ -283,6 +289,9 @@ def _sanitise_search(case):
         'wl_timeout': _int(case.get('wl_timeout'), -1, 3, -1),
         'store': bool(case.get('store', True)),
         'wishlist': wishlist,
+        'rm_listeners': [(it[0], _int(it[1], 1, 6, 1))
+                         for it in (case.get('rm_listeners') if isinstance(case.get('rm_listeners'), list) else [])[:3]
+                         if isinstance(it, list) and len(it) == 2 and it[0] in ('sync', 'async', 'steps', 'tick')],
         'ops': ops,
     }
 
@@ -349,6 +358,7 @@ def _run_search(case) -> CaseResult:
     checkpoints = []     # (time, {ticket: id(obj)})
     notes = {'dup': None, 'ties': set(), 'near': False}
     violations = []      # (kind, detail, ticket, time) found while driving
+    rm_log = []          # (listener index, 'entered'|'finished', id(request), time) of the extra removal listeners
 
     def add_req(src, obj, created, timeout, now, registered_before=()):
         r = _Req(len(reqs), src, obj, created, timeout)
@@ -448,7 +458,42 @@ def _run_search(case) -> CaseResult:
         client.events.register(SearchRequestSentEvent, listener.on_sent)
         client.events.register(SearchRequestSentEvent, listener.on_sent_plain)
         client.events.register(SearchRequestSentEvent, listener.on_sent_slow)
-        client.events.register(SearchRequestRemovedEvent, listener.on_removed)
+        client.events.register(SearchRequestRemovedEvent, listener.on_removed)     # first: time / order of the emit
+
+        class RemovalListener:
+            """A user's listener of SearchRequestRemovedEvent: plain, coroutine without a wait, coroutine that waits
+            k loop iterations or one grid step before it is done."""
+
+            def __init__(self, idx, mode, k):
+                self.idx, self.mode, self.k = idx, mode, k
+                self.handler = {'sync': self.plain, 'last': self.plain, 'async': self.fast, 'steps': self.steps,
+                                'tick': self.tick}[mode]
+
+            def note(self, what, event):
+                rm_log.append((self.idx, what, id(event.query), loop.time()))
+
+            def plain(self, event):
+                self.note('entered', event)
+                self.note('finished', event)
+
+            async def fast(self, event):
+                self.note('entered', event)
+                self.note('finished', event)
+
+            async def steps(self, event):
+                self.note('entered', event)
+                await simloop.step(self.k)
+                self.note('finished', event)
+
+            async def tick(self, event):
+                self.note('entered', event)
+                await asyncio.sleep(TICK)
+                self.note('finished', event)
+
+        rm_listeners = [RemovalListener(i, mode, k) for i, (mode, k) in enumerate(cfg['rm_listeners'])]
+        rm_listeners.append(RemovalListener(len(rm_listeners), 'last', 0))
+        for lst in rm_listeners:    # strong references stay in this list (the bus holds weak ones)
+            client.events.register(SearchRequestRemovedEvent, lst.handler)
         client.events.register(SearchResultEvent, listener.on_result)
 
         await _until(loop, T0)
@@ -741,6 +786,35 @@ def _run_search(case) -> CaseResult:
     for kind, detail, ticket, at in violations:
         if ticket is None or ticket not in tainted or at < tainted[ticket] - EPS:
             res.violate(kind, detail)
+
+    # ---- every listener of SearchRequestRemovedEvent gets every report, and gets to finish ------------------
+    modes = [m for m, _ in cfg['rm_listeners']] + ['last']
+    settle = end - TICK * sum(1 for m in modes if m == 'tick') - EPS    # sleeping listeners delay the ones behind
+    for r in reqs:
+        emitted = [t for t in removed_events.get(r.n, [])]
+        if not emitted or max(emitted) > settle:
+            continue
+        for idx, mode in enumerate(modes):
+            entered = sum(1 for i, what, rid, t in rm_log if i == idx and what == 'entered' and rid == id(r.obj))
+            finished = sum(1 for i, what, rid, t in rm_log if i == idx and what == 'finished' and rid == id(r.obj))
+            who = f'listener {idx + 2} of {len(modes) + 1} ({mode})'
+            if entered < len(emitted):
+                res.violate('C18/removal-event-not-delivered-to-every-listener',
+                            f'{r.describe()}: SearchRequestRemovedEvent emitted at {emitted} but {who} received it '
+                            f'{entered} time(s); listeners: {modes}')
+                break
+            if entered > len(emitted):
+                res.violate('C18/removal-event-twice', f'{r.describe()}: {who} received it {entered} times')
+                break
+            if finished < entered:
+                res.violate('C18/removal-listener-interrupted',
+                            f'{r.describe()}: {who} was entered at the report of {emitted} but never ran to its '
+                            f'end; listeners: {modes}')
+                break
+    for i, what, rid, t in rm_log:
+        if rid not in by_obj:
+            res.violate('C18/removal-event-for-unknown-request', f'listener {i} at {t}')
+            break
 
     # ---- result events ---------------------------------------------------
     result_events: dict[int, list] = {}
